@@ -205,6 +205,9 @@ class Net(object):
             await self.connect_gate(host, port)
         else:
             await asyncio.sleep(0)
+        if not isinstance(port, int) or not 0 <= port <= 65535:
+            # what the real asyncio.open_connection does for such a port
+            raise OverflowError('connect(): port must be 0-65535.')
         if self.connect_failures:
             exc = self.connect_failures.popleft()
             if exc is not None:
